@@ -274,6 +274,7 @@ class SuperSpeedStreamInEndpoint(Elaboratable):
 
                 # ... and once that send is complete, move on to waiting for an IN token.
                 with m.If(handshakes_out.done):
+                    m.d.ss += erdy_required.eq(0)
                     m.next = "WAIT_TO_SEND"
 
 
